@@ -2,7 +2,7 @@
    Models: Lex/Scan.v (lex.Tables.Scan with the end-of-input loop, the automaton encoded by the tables, the
    checkpoint validator), Lex/Deriv.v (derivative-based specification used as the oracle). *)
 From Coq Require Import List ZArith Bool Lia.
-From TM Require Import Lex.Tables Lex.Scan Lex.Scan_proofs Lex.Charset Lex.RegexParse Lex.Deriv Lex.DerivSem Lex.Deriv_proofs Lex.Deriv_scan_proofs.
+From TM Require Import Lex.Tables Lex.Scan Lex.Scan_proofs Lex.Charset Lex.RegexParse Lex.Deriv Lex.DerivSem Lex.Deriv_proofs Lex.Deriv_scan_proofs Lex.Bisim Lex.Bisim_proofs.
 Import ListNotations.
 Local Open Scope Z_scope.
 
@@ -83,9 +83,30 @@ Theorem C09_symbols_total : forall bytes text,
   offs (length (symbols bytes text)) (symbols bytes text) = Z.of_nat (length text).
 Proof. exact symbols_total. Qed.
 
-(* NOT proved: the Tier-2 bisimulation validator between tables and rule derivatives (check_bisim): agreement of the
-   compiled tables with spec_scan is sampled (every compiled rule set x 10 texts), not proved per rule set.
-   The empty text is compared on every run but excluded from C09_scan_is_longest (a checkpoint taken at offset 0 on an
+(* check_bisim (Tier 2).  Bisim.check_bisim explores the pairs (DFA state, normalised derivative vector of the active
+   rules) reachable from the start state over one representative per interval of the symbol map and then runs the
+   certificate checker closed_check on the set found: equal accepting label / winning action at every pair, every
+   interval of the symbol map (clipped to the symbols a text can contain) uniform for every class of the vector, a move in
+   the tables iff the derivative vector stays viable, the successor pair in the set, and the joint end-of-input run ends
+   within min(4, #states) markers.  For EVERY table set, rule set and start condition: if the check answers 0, the
+   reference run of the automaton of the tables equals the specification on EVERY text of bytes — and, with the
+   checkpoint validator, so does Scan itself.  The check is evaluated on the real tables of every sampled rule set
+   (case kind c09.bisim); it may also answer "unknown" (exploration cap, {eoi} chains longer than the depth). *)
+Theorem C09_check_bisim_sound : forall cap t rules sc, check_bisim cap t rules sc = 0 ->
+  forall text, bytes_ok text -> longest_accept t sc text = spec_scan (scan_bytes t) rules text.
+Proof. exact check_bisim_sound. Qed.
+
+Theorem C09_check_bisim_scan : forall cap t rules sc, check_tables t = true -> In (nthZ (state_map t) sc) (state_map t) ->
+  check_bisim cap t rules sc = 0 ->
+  forall text, text <> [] -> bytes_ok text -> scanF t sc text = spec_scan (scan_bytes t) rules text.
+Proof. exact check_bisim_scan. Qed.
+
+(* the certificate form: any set of pairs accepted by closed_check and containing the start pair will do *)
+Theorem C09_bisim_cert_sound : forall t rules sc seen, bisim_cert t rules sc seen = true ->
+  forall text, bytes_ok text -> longest_accept t sc text = spec_scan (scan_bytes t) rules text.
+Proof. exact bisim_cert_sound. Qed.
+
+(* The empty text is compared on every run but excluded from C09_scan_is_longest (a checkpoint taken at offset 0 on an
    end-of-input move would be ignored by Scan's `size > 0` test). *)
 
 (* tables of /a{eoi}/ => 2, of /ab*c/ => 2 + /a/ => 3 (one checkpoint), and /a/ => 2 + /a{eoi}/ => 3, as lex.Compile emits them *)
@@ -115,6 +136,16 @@ Example C09_spec_examples :
   spec_scan false [(a, 2, 0); (Cat a e, 3, 0)] [97] = (1, 3).
 Proof. vm_compute. repeat split; reflexivity. Qed.
 
+(* the check accepts the example tables against their rule sets, and rejects a wrong rule set *)
+Example C09_check_bisim_examples :
+  let a := Sym [(97, 97)] in let b := Sym [(98, 98)] in let c := Sym [(99, 99)] in let e := Sym [(-1, -1)] in
+  check_bisim 100 t_a_eoi [(Cat a e, 2, 0)] 0 = 0 /\
+  check_bisim 100 t_bt [(Cat a (Cat (Rep 0 (-1) b) c), 2, 0); (a, 3, 0)] 0 = 0 /\
+  check_bisim 100 t_a_aeoi [(a, 2, 0); (Cat a e, 3, 0)] 0 = 0 /\
+  check_bisim 100 t_bt [(Cat a (Cat (Rep 0 (-1) b) c), 2, 0)] 0 = 3 /\
+  check_bisim 100 t_a_eoi [(Cat a (Cat b e), 2, 0)] 0 = 4.
+Proof. vm_compute. repeat split; reflexivity. Qed.
+
 (* the declarative semantics is inhabited: /ab*c/ matches "abbc", /a{eoi}/ matches "a" followed by the end marker *)
 Example C09_matches_examples :
   let a := Sym [(97, 97)] in let b := Sym [(98, 98)] in let c := Sym [(99, 99)] in let e := Sym [(-1, -1)] in
@@ -136,3 +167,6 @@ Print Assumptions C09_spec_scan_correct.
 Print Assumptions C09_spec_scan_longest.
 Print Assumptions C09_spec_scan_invalid.
 Print Assumptions C09_symbols_total.
+Print Assumptions C09_check_bisim_sound.
+Print Assumptions C09_check_bisim_scan.
+Print Assumptions C09_bisim_cert_sound.
